@@ -714,3 +714,64 @@ Proof.
   intros p Hp. rewrite forallb_forall in H3. apply existsb_In. now apply H3.
 Qed.
 End Decide.
+
+(* ---------------------------------------------------------------- parameters are bound by position *)
+Lemma lookup_app_skip l r p : (forall q w, In (q, w) l -> q <> p) -> lookup_arg (l ++ r) p = lookup_arg r p.
+Proof.
+  induction l as [|[q w] l IH]; intros H; [reflexivity|]. cbn [app lookup_arg].
+  destruct (String.eqb q p) eqn:E.
+  - apply String.eqb_eq in E. exfalso. apply (H q w); [now left|assumption].
+  - apply IH. intros q' w' Hin. apply (H q' w'). now right.
+Qed.
+
+Lemma lookup_rev_last l1 p v l2 : (forall q w, In (q, w) l2 -> q <> p) -> lookup_arg (rev (l1 ++ (p, v) :: l2)) p = Some v.
+Proof.
+  intros H. rewrite rev_app_distr. cbn [rev]. rewrite <- app_assoc. rewrite lookup_app_skip.
+  - cbn [app lookup_arg]. now rewrite String.eqb_refl.
+  - intros q w Hin. apply in_rev in Hin. now apply (H q w).
+Qed.
+
+Lemma combine_split {A B} : forall i (ps : list A) (xs : list B) p a,
+  nth_error ps i = Some p -> nth_error xs i = Some a ->
+  combine ps xs = (combine (firstn i ps) (firstn i xs) ++ (p, a) :: combine (skipn (S i) ps) (skipn (S i) xs))%list.
+Proof.
+  induction i as [|i IH]; intros [|q ps] [|x xs] p a Hp Ha; try discriminate.
+  - cbn in Hp, Ha. inversion Hp; inversion Ha; subst. reflexivity.
+  - cbn in Hp, Ha. cbn [firstn combine app]. f_equal. now apply IH.
+Qed.
+
+Lemma nth_error_skipn' {A} : forall n (l : list A) k, nth_error (skipn n l) k = nth_error l (n + k).
+Proof. induction n as [|n IH]; intros [|x l] k; cbn; try reflexivity; [now destruct k|apply IH]. Qed.
+
+(* Every parameter is replaced by the argument written at ITS OWN position of the call: the i-th parameter (blank ones count)
+   gets the i-th argument (without its parentheses), unless a later parameter has the same name (Go forbids that for names
+   other than _).  In particular a named parameter behind a blank one is not bound to the blank one's argument. *)
+Theorem bind_positional params args i p a :
+  nth_error params i = Some p -> nth_error args i = Some a ->
+  (forall j q, i < j -> nth_error params j = Some q -> q <> p) ->
+  lookup_arg (bind params args) p = Some (unparen a).
+Proof.
+  intros Hp Ha Hlater. unfold bind.
+  assert (Ha' : nth_error (map unparen args) i = Some (unparen a)) by (rewrite nth_error_map, Ha; reflexivity).
+  rewrite (combine_split i params (map unparen args) p (unparen a) Hp Ha').
+  apply lookup_rev_last. intros q w Hin. apply in_combine_l in Hin. apply In_nth_error in Hin. destruct Hin as [k Hk].
+  rewrite nth_error_skipn' in Hk. apply (Hlater (S i + k)); [lia|assumption].
+Qed.
+
+(* a parameter the call has no position for is not bound at all (expandMacro rejects such calls before it binds) *)
+Theorem bind_dom_params params args p : lookup_arg (bind params args) p <> None -> In p params.
+Proof.
+  intros H. destruct (lookup_arg (bind params args) p) as [e|] eqn:E; [|contradiction]. clear H.
+  assert (Hin : In p (map fst (bind params args))).
+  { revert E. generalize (bind params args). induction l as [|[q w] l IH]; cbn; [discriminate|].
+    destruct (String.eqb q p) eqn:Q; [apply String.eqb_eq in Q; now left|intros H; right; now apply IH]. }
+  exact (bind_dom params args p Hin).
+Qed.
+
+Example ex_blank_then_named :
+  let x := EIndex None (EIdent None "m") (ELit None LString (Some (CStr "x"))) in
+  let y := EIndex None (EIdent None "m") (ELit None LString (Some (CStr "y"))) in
+  subst (bind ["_"; "v"] [x; EParen None y]) (ESel None (EIdent None "v") "Pure") = ESel None y "Pure" /\
+  subst (bind ["_"; "v"; "_"] [x; y; x]) (EIdent None "v") = y /\
+  subst (bind ["v"; "_"; "_"] [y; x; x]) (EIdent None "v") = y.
+Proof. vm_compute. repeat split; reflexivity. Qed.
